@@ -33,6 +33,7 @@ import Pandora.Proofs.C18Sess
 import Pandora.Proofs.C18Hook
 import Pandora.Proofs.C18Valid
 import Pandora.Proofs.C18Nest
+import Pandora.Proofs.C18Over
 
 namespace Pandora.Props.C18
 open Pandora.Model.C18 Pandora.Spec.C18 Pandora.Proofs.C18
@@ -781,6 +782,57 @@ theorem C18_nested (outer0 inner0 : Input) (m : NestObs) (fields : List Nat) (h 
         simp [innerFails, this]
 end
 
+/-! ### structured options (round 4): the config decoder overlays defaults with settings for EVERY kind of option -/
+
+section Over
+open Pandora.Model.C18Over
+
+/-- **"configured with the registered defaults overlaid by the user's settings"**, for a configuration with scalar, MAP,
+LIST, ARRAY and POINTER-to-struct options and settings that may give any option as an explicit NULL: whatever the
+registered defaults `d` and the user's settings `u` are, every field `f` (unbounded: every map key, every list index) of
+what the decoder of core/config makes of them — `decode` with the ZeroFields flag REGENERATED from `newDecoderConfig` —
+is the user's value where the settings name the field (`semSet`) and the default's value otherwise. -/
+theorem C18_overlay (d : OCfg) (u : OSet) (f : Nat) :
+    sem (decode Pandora.Gen.Plugin.decoderZeroFields d u) f = overlaid d u f := by
+  rw [Pandora.Bridge.Plugin.decoder_flags.1]; exact Pandora.Proofs.C18Over.overlay d u f
+
+/-- the driver's flattening is sound: the finite `Cfg`s an `ext=1` case hands to `Model.C18.run` (settings `flatSet`,
+defaults `flat`) make the model's "user settings laid over the defaults" (`Spec.C18.expected` is `user ++ defaults`)
+equal to the decoded configuration on every listed field — so `C18_config` & co. speak about structured options too -/
+theorem C18_overlay_flat (fs : List Nat) (d : OCfg) (u : OSet) (f : Nat) (hf : f ∈ fs) :
+    Cfg.get (flatSet fs u ++ flat fs d) f = sem (decode false d u) f :=
+  Pandora.Proofs.C18Over.flat_overlay fs d u f hf
+
+/-- what a decoder with ZeroFields = true would have to satisfy -/
+def C18_overlay_zerofields_statement : Prop :=
+  ∀ (d : OCfg) (u : OSet) (f : Nat), sem (decode true d u) f = overlaid d u f
+
+/-- … and does not: an option given as an explicit null loses its registered default (field 2), a map option of which
+the user sets one key loses the default's other keys (field 20 = key k0) -/
+theorem C18_overlay_zerofields_counterexample : ¬ C18_overlay_zerofields_statement := by
+  intro h
+  have := h { OCfg.zero with b := 52 } { OSet.none with b := .null } 2
+  revert this; decide
+
+theorem C18_overlay_zerofields_counterexample_map :
+    sem (decode true { OCfg.zero with m := some [(0, 7)] } { OSet.none with m := .val [(1, 9)] }) 20 ≠
+      overlaid { OCfg.zero with m := some [(0, 7)] } { OSet.none with m := .val [(1, 9)] } 20 := by decide
+
+/-- settings that a ZeroFields decoder treats alike: scalars given or absent, no structured option named -/
+def scalarOnly (u : OSet) : Prop :=
+  u.a ≠ .null ∧ u.b ≠ .null ∧ u.c ≠ .null ∧ u.m = .absent ∧ u.l = .absent ∧ u.r = .absent ∧ u.p = .absent
+
+/-- what remains true of a ZeroFields decoder: on scalar-only settings the flag makes no difference -/
+theorem C18_overlay_zerofields_partial (d : OCfg) (u : OSet) (f : Nat) (hu : scalarOnly u) :
+    sem (decode true d u) f = overlaid d u f := by
+  obtain ⟨ha, hb, hc, hm, hl, hr, hp⟩ := hu
+  rw [← Pandora.Proofs.C18Over.overlay d u f]
+  have hs : ∀ (x : Int) (o : Opt Int), o ≠ .null → decScalar true x o = decScalar false x o := by
+    intro x o ho; cases o <;> simp_all [decScalar]
+  simp only [decode, hm, hl, hr, hp, hs _ _ ha, hs _ _ hb, hs _ _ hc, decMap, decList, decArrAt, decPtr]
+
+end Over
+
 /-! ### non-vacuity: concrete inputs that meet the hypotheses and exercise every branch of the statements -/
 
 /-- defaults 5/6/7 on fields 1..3, the user sets field 2 to 9 -/
@@ -978,5 +1030,23 @@ example : (nestRun exFresh exInner).map (fun m => (m.outer.steps.map (·.res) |>
 example : (nestRun exFresh exInner).map (fun m => (fillCount m.outer.steps, m.inner.steps.length)) = some (3, 3) ∧
     innerFails exInner (bound exFresh) 1 = true ∧ innerFails exInner (bound exFresh) 2 = false := by decide
 end
+
+/-! ### structured options (round 4): non-vacuity -/
+section OverEx
+open Pandora.Model.C18Over
+
+/-- defaults: B = 52, map {k0:1, k2:5}, list [1,2,3], array [7,8,9], pointer {3,4} -/
+def exOD : OCfg := ⟨15, 52, 21, some [(0, 1), (2, 5)], some [1, 2, 3], 7, 8, 9, some ⟨3, 4⟩⟩
+/-- settings: B as an explicit null, one map key added and one changed, a shorter list with a null element, the second
+array element, one field of the nested struct -/
+def exOU : OSet := ⟨.absent, .null, .val 24, .val [(1, 9), (2, 6)], .val [none, some 40], .val [none, some 80], .val (some 5, none)⟩
+
+example : (allFields.map fun f => sem (decode false exOD exOU) f) =
+    [15, 52, 24, /- k0..k3 -/ 1, 9, 6, 0, /- array -/ 7, 80, 9, /- pointer -/ 1, 5, 4, /- list -/ 2, 1, 40, 0, 0] := by decide
+example : (allFields.map fun f => sem (decode true exOD exOU) f) =
+    [15, 0, 24, 0, 9, 6, 0, 0, 80, 0, 1, 5, 0, 2, 0, 40, 0, 0] := by decide
+example : flatSet allFields exOU = [(3, 24), (22, 9), (24, 6), (9, 80), (11, 1), (12, 5), (14, 2), (23, 40), (25, 0), (27, 0)] := by decide
+example : scalarOnly { OSet.none with a := .val 3 } := by simp [scalarOnly, OSet.none]
+end OverEx
 
 end Pandora.Props.C18
